@@ -347,10 +347,10 @@ class _Sub(ast.NodeTransformer):
 
 
 class Summary:
-    def __init__(self, f: Func, ref_params: t.Optional[t.List[str]] = None, loop_bound: int = 2, max_paths: int = 4000, prune: bool = False) -> None:
+    def __init__(self, f: Func, ref_params: t.Optional[t.List[str]] = None, loop_bound: int = 2, max_paths: int = 4000, prune: bool = False, asserts_may_pass: bool = False) -> None:
         self.f = f
         _tag_calls(f.node)
-        self.cfg: CFG = build(f.node)
+        self.cfg: CFG = build(f.node, asserts_may_pass)
         self.rename: t.Dict[str, str] = {}
         if ref_params is not None:
             # parameters that kept their reference name stay; the others are matched in order (renames); a parameter the
